@@ -27,6 +27,7 @@ type templateVerdict struct {
 	gf        *genFile
 	em        *emission
 	Got, Want []outcome
+	Skipped   string
 }
 
 // project recomputes Missing/Extra under a projection of outcomes (each
@@ -81,6 +82,10 @@ func checkModel(r *Repo, ti *tmplInfo, rg *region, m *model, ri int, name string
 	}
 	if len(errs) > 0 {
 		tv.TypeErrs = errs
+		return tv
+	}
+	if ri+1 < len(gf.rules) && gf.rules[ri+1] == nil && m.opts.Inline {
+		tv.Skipped = "the rule under test is inlined at its only use under -inline: no function is emitted for it"
 		return tv
 	}
 	if ri+1 >= len(gf.rules) || gf.rules[ri+1] == nil {
